@@ -3,6 +3,7 @@ import Umya.Model.Annot
 import Umya.Driver.C06View
 import Umya.Driver.C06Codec
 import Umya.Driver.C06Comment
+import Umya.Driver.C06Names
 namespace Umya.Driver.C06
 open Umya.Annot Umya.Coord Umya.Proto Umya.XmlEsc
 
@@ -131,6 +132,9 @@ def handle (st : St) (args : List String) : St × String :=
     | none =>
       match Umya.Driver.C06Comment.handle args with
       | some r => (st, r)
-      | none => (st, "bad-op")
+      | none =>
+        match Umya.Driver.C06Names.handle args with
+        | some r => (st, r)
+        | none => (st, "bad-op")
 
 end Umya.Driver.C06
